@@ -143,13 +143,15 @@ PROPS = {
     ),
     "C05": dict(
         lean_props="Receptor.Props.C05",
-        engines=[dict(engine="results", pkg="pkg/workceptor", test="TestVerifResults", n_quick=12, n_thorough=60)],
-        corr_ops={"results": ["units"]},
+        engines=[dict(engine="results", pkg="pkg/workceptor", test="TestVerifResults", n_quick=12, n_thorough=60),
+                 dict(engine="mirror", pkg="pkg/workceptor", test="TestVerifMirror", n_quick=2, n_thorough=6)],
+        corr_ops={"results": ["units"], "mirror": ["mirror"]},
         facts=["res_end_cond", "res_nostdout_cond", "res_iscomplete", "res_buffer", "res_loop", "res_remote_offset", "res_remote_write"],
         trusted=["the unit's discipline: output is appended only before the final status, the recorded size never exceeds the file size and "
                  "the final status records the file size (what command.go's runner and STDoutWriter do; played by the harness)",
-                 "the remote mirror (monitorRemoteStdout) is tied by facts and proved on the model (mirror_prefix, mirror_completes); "
-                 "it is not exercised across real link cuts by this check (two nodes, 45 s dead-peer detection)",
+                 "the remote mirror (monitorRemoteStdout / monitorRemoteStatus) is proved on the model (mirror_prefix, mirror_completes), "
+                 "tied by facts, and exercised between two real nodes over an in-memory link that is cut and restored while the "
+                 "output is being mirrored (QUIC idle time-out shortened to 1.5 s; relay-node and control-service restarts are not exercised)",
                  "os.File Seek/Read semantics; the 250 ms / 1 s polling intervals are real time"],
         assumptions=["'ends' is observed as: the server closes the stream within 4 s after the final status was written"],
     ),
